@@ -109,6 +109,8 @@ func (rn *Runner) apply(m *mail.Msg, c Call) error {
 		return m.AddBccFormat(c.Name, addr)
 	case "fromformat:From":
 		return m.FromFormat(c.Name, addr)
+	case "envign:Env":
+		m.SetAddrHeaderIgnoreInvalid(mail.HeaderEnvelopeFrom, v...)
 	case "reset:To": // Msg.Reset also drops the body and the generic headers: they are set again
 		m.Reset()
 		m.SetDateWithValue(time.Date(2024, 5, 17, 10, 11, 12, 0, time.UTC))
